@@ -371,6 +371,14 @@ where
     let server_name = if let Some(server_name) = &config.server_name { server_name } else { &host.to_owned() };
     let conn = endpoint.connect(format!("{host}:{port}").parse()?, server_name)?.await?;
     let (send, recv) = conn.open_bi().await?;
+    // The connection and its endpoint outlive the stream handles until the server has ended the connection (it does
+    // so when the flow is over) or the connection has timed out. Dropped together with the stream, they go away before
+    // the end of the stream - a reset in particular - has reached the server, which then holds the flow and its
+    // target connection until the idle timeout.
+    tokio::spawn(async move {
+        conn.closed().await;
+        endpoint.wait_idle().await;
+    });
     Ok(codec.framed(QuicStream::new(send, recv)))
 }
 
